@@ -633,6 +633,9 @@ func (fe *FnExec) doMakeInterface(st *State, x *ssa.MakeInterface) Val {
 	if ref == "" || ref == "0" {
 		ref = fe.fresh("iface", "Int")
 		fe.assume(sx("<", "1000", ref), "boxed value id (non-nil, not a sentinel)")
+		// a new interface value: distinct from every object and interface value that existed before
+		fe.assume(sx("<", fe.hw, ref), "fresh interface value id: above everything allocated so far")
+		fe.hw = ref
 		fe.assume(tEq(sx("payload", ref), termOf(v)), "boxed payload")
 		if pv, ok := v.(PtrV); ok {
 			fe.boxed[ref] = pv
@@ -816,6 +819,11 @@ func (fe *FnExec) doReturn(fr *frame, st *State, x *ssa.Return) {
 		ctx.bindResults(fr.fn.Signature, rv)
 		g := ctx.evalBool(en.X)
 		fe.oblige(fr, fmt.Sprintf("post:%s@ret%d", en.Label, len(fr.rets)-1), en.Props, st.pc, g, x.Pos(), en.Src)
+	}
+	for _, inv := range fr.con.CbInvs {
+		ctx := fe.ctxFor(fr, st)
+		ctx.old = fr.entry
+		fe.oblige(fr, fmt.Sprintf("inv:%s:keep@ret%d", inv.Label, len(fr.rets)-1), inv.Props, st.pc, ctx.evalBool(inv.X), x.Pos(), inv.Src)
 	}
 }
 
